@@ -374,6 +374,27 @@ def run(chk):
     else:
         ok = False
     chk.ob("O10.4", "version window check (below minimum / above maximum raise) dominates construction", ok, vt[0] if vt else rd, detail)
+    # the version is looked at BEFORE the schema has been applied: whatever JSON value stands there (null, a list, an object; a top-level value that is no object at all) this
+    # pre-check must end in a Rally error or let the schema validation reject the specification — never in a bare Python error
+    from sa.exc import handler_type_names
+    conv = [c for c in walk_body(rd) if isinstance(c, ast.Call) and dotted(c.func) == "int" and c.args and not isinstance(c.args[0], ast.Constant)
+            and not gr.dominated_by_nodes(gr.node_of(c), [gr.node_of(val[0])])]
+    for c in conv:
+        tr_ = source.enclosing(c, ast.Try)
+        caught = {n_.split(".")[-1] for h in (tr_.handlers if tr_ is not None else []) for n_ in handler_type_names(h, ldr)} | ({"BaseException"} if tr_ is not None and any(h.type is None for h in tr_.handlers) else set())
+        ok = tr_ is not None and ({"TypeError", "ValueError"} <= caught or caught & {"Exception", "BaseException"}) and all(any(isinstance(x, ast.Raise) for x in ast.walk(h)) for h in tr_.handlers)
+        chk.ob("O10.4", "conversion of the not-yet-validated version value cannot escape as a Python error", ok, c,
+               f"int({short(c.args[0], 30)}) guarded for {sorted(caught)}" + ("" if ok else " — `\"version\": null` (or a list / object) raises TypeError instead of a track syntax error"),
+               key=f"{_L}:TrackFileReader.read:version-conversion-guarded")
+    raw_reads = [c for c in walk_body(rd) if isinstance(c, ast.Call) and isinstance(c.func, ast.Attribute) and c.func.attr == "get" and c.args and source.is_const(c.args[0], "version")
+                 and not gr.dominated_by_nodes(gr.node_of(c), [gr.node_of(val[0])])]
+    for c in raw_reads:
+        recv = u(c.func.value)
+        ok = pat.guarded(c, f"isinstance({recv}, dict)") is not None
+        chk.ob("O10.4", "the not-yet-validated specification is only subscripted as an object after an isinstance(dict) test", ok, c,
+               "" if ok else f"`{short(c, 50)}` runs before validation on whatever the top-level JSON value is: a list raises AttributeError instead of a track syntax error",
+               key=f"{_L}:TrackFileReader.read:version-read-guarded")
+    chk.ob("O10.4", "pre-validation version read located", bool(conv) and bool(raw_reads), rd, f"{len(conv)} conversion(s), {len(raw_reads)} read(s)")
     sch = method(ldr, FR, "__init__")
     ok = any(isinstance(n, ast.Assign) and is_self_attr(n.targets[0], "track_schema") and "json.loads" in u(n.value) for n in walk_body(sch)) and any("track-schema.json" in u(n) for n in walk_body(sch))
     chk.ob("O10.4", "the schema is Rally's track-schema.json", ok, sch, "")
